@@ -122,6 +122,14 @@ func (f *FakeS3) handle(w http.ResponseWriter, r *http.Request) {
 	}
 	switch r.Method {
 	case http.MethodPut:
+		// conditional writes as S3 implements them: "If-None-Match: *" refuses to replace an object
+		if _, exists := f.Objects[key]; exists && strings.TrimSpace(r.Header.Get("If-None-Match")) == "*" {
+			w.Header().Set("Content-Type", "application/xml")
+			w.WriteHeader(412)
+			rec.Status = 412
+			fmt.Fprint(w, `<?xml version="1.0" encoding="UTF-8"?><Error><Code>PreconditionFailed</Code><Message>At least one of the pre-conditions you specified did not hold</Message><Condition>If-None-Match</Condition></Error>`)
+			return
+		}
 		if ft != "drop" {
 			f.Objects[key] = body
 		}
